@@ -6,6 +6,7 @@ package main
 
 import (
 	"bufio"
+	"bytes"
 	"crypto/sha256"
 	"encoding/hex"
 	"encoding/json"
@@ -241,6 +242,10 @@ func facetDeterm(args []string) error {
 			continue
 		}
 		kinds[s.kind]++
+		// should the generator take the whole process down (an unrecoverable runtime error), this
+		// marker names the spec it was working on
+		ow.Flush()
+		os.WriteFile(filepath.Join(*out, "progress"), []byte(s.name+"\t"+s.kind+"\t"+hex.EncodeToString(s.spec)), 0o644)
 		var hashes []map[string]string
 		outcome := ""
 		client := true
@@ -296,6 +301,18 @@ func facetDeterm(args []string) error {
 				}
 				cmd := exec.Command(self, a...)
 				cmd.Env = os.Environ()
+				if p == procs-1 && !bytes.Contains(s.spec, []byte("x-goag-go-type")) {
+					// (custom Go types named without an import path are resolved by goimports from the
+					// machine's GOPATH / module cache: the assumption under which C12 is claimed excludes them)
+					// another user's machine: a home directory with a configuration of its own, another
+					// working directory, another locale; none of them is an input of the generator
+					home := filepath.Join(*work, "otherhome")
+					os.MkdirAll(home, 0o755)
+					os.WriteFile(filepath.Join(home, ".goag.yaml"), []byte("cors:\n  enable: true\nnullable:\n  type: zzNull\n"), 0o644)
+					os.WriteFile(filepath.Join(home, ".goag.yml"), []byte("cors:\n  enable: true\n"), 0o644)
+					cmd.Env = append(cmd.Env, "HOME="+home, "XDG_CONFIG_HOME="+home, "LANG=tr_TR.UTF-8", "LC_ALL=tr_TR.UTF-8", "TZ=Asia/Kathmandu")
+					cmd.Dir = home
+				}
 				if o, err := cmd.CombinedOutput(); err != nil {
 					outcome = "subprocess:" + firstLine(string(o))
 					break
@@ -332,6 +349,7 @@ func facetDeterm(args []string) error {
 	}
 	ow.Flush()
 	of.Close()
+	os.Remove(filepath.Join(*out, "progress"))
 	meta, _ := json.Marshal(map[string]any{"kinds": kinds, "stats": map[string]int{"generator_runs": totalRuns}})
 	return os.WriteFile(filepath.Join(*out, "meta.json"), meta, 0o644)
 }
